@@ -8,6 +8,8 @@ import Rbql.Spec.EngineSpec
 import Rbql.Spec.Comparable
 import Rbql.Model.EngineJs
 import Rbql.Model.Header
+import Rbql.Model.PyAst
+import Driver.Codec
 namespace Driver
 open Rbql Lean
 
@@ -298,5 +300,62 @@ def opHeader (payload : String) : String :=
       | .error _ => "{\"err\":\"star-and-alias\"}"
       | .ok none => "{\"header\":null}"
       | .ok (some h) => (Json.mkObj [("header", .arr (h.map (fun s => Json.str (String.ofList s))).toArray)]).compress
+
+
+
+/-! ### the Python `ast` route to column infos (Model/PyAst.lean) -/
+
+partial def decPyNode (j : Json) : Except String PyNode := do
+  let k ← (← j.getObjVal? "k").getStr?
+  let kids : Except String (List PyNode) := do
+    match optField j "c" with
+    | some v => do let arr ← v.getArr?; arr.toList.mapM decPyNode
+    | none => pure []
+  match k with
+  | "name" => do let id ← (← j.getObjVal? "id").getStr?; pure (.name id.toList)
+  | "attr" => do
+    let a ← (← j.getObjVal? "attr").getStr?
+    let v ← decPyNode (← j.getObjVal? "v")
+    pure (.attribute v a.toList)
+  | "sub" => do
+    let v ← decPyNode (← j.getObjVal? "v")
+    let s ← decPyNode (← j.getObjVal? "s")
+    pure (.subscript v s)
+  | "cstr" => do let s ← (← j.getObjVal? "s").getStr?; pure (.constant (.str s.toList))
+  | "cint" => do let s ← (← j.getObjVal? "n").getStr?; pure (.constant (.int (s.toInt?.getD 0)))
+  | "cbool" => pure (.constant .bool)
+  | "cother" => pure (.constant .other)
+  | "call" => do
+    let f ← decPyNode (← j.getObjVal? "f")
+    let a ← (← (← j.getObjVal? "a").getArr?).toList.mapM decPyNode
+    let r ← (← (← j.getObjVal? "r").getArr?).toList.mapM decPyNode
+    pure (.call f a r)
+  | _ => do let cs ← kids; pure (.other cs)
+
+def encColInfoTok : ColInfo → String
+  | .star none => "S*"
+  | .star (some false) => "Sa"
+  | .star (some true) => "Sb"
+  | .field isB i => "F" ++ (if isB then "b" else "a") ++ toString i
+  | .named n => "N" ++ encStr n
+  | .alias n => "A" ++ encStr n
+  | .other => "O"
+
+def opPyInfos (payload : String) : String :=
+  match Json.parse payload with
+  | .error e => "bad-json " ++ e
+  | .ok j =>
+    match (do
+      let stmts ← (← (← j.getObjVal? "stmts").getArr?).toList.mapM (fun st => do (← st.getArr?).toList.mapM decPyNode)
+      let isTuple := (optField j "tuple").map (fun v => v == Json.bool true) |>.getD false
+      let elts ← (← (← j.getObjVal? "elts").getArr?).toList.mapM decPyNode
+      pure ({ stmts := stmts, isTuple := isTuple, bracketElts := elts } : PyTop) : Except String PyTop) with
+    | .error e => "bad-case " ++ e
+    | .ok t =>
+      match pyColumnInfos t with
+      | .ok infos => "ok " ++ (if infos.isEmpty then "~" else " ".intercalate (infos.map encColInfoTok))
+      | .error .code118 => "err 118"
+      | .error .code119 => "err 119"
+      | .error .badAlias => "err alias"
 
 end Driver
